@@ -20,11 +20,13 @@ TRUSTED = ["model: coq/theories/Model/CQMSpec.v (plain list of polynomials), Exp
 ASSUMPTIONS = ["the base quadratic model of an expression (abc.h adjacency) is abstracted to a list of linear biases and a bag of "
                "interactions over local indices (Adj.v is the detailed mirror)",
                "IEEE-754 arithmetic is exact on the small dyadic coefficients generated"]
-PARTIAL = ["the label layer (C05_cqm_refines_spec_labels) takes Variables as the list of labels; that the two sparse dicts of "
-           "dimod.variables behave as this list is property C13 (Vars.v/VarsFacts.v); LRelabel carries the explicit guard that the "
-           "relabelled list is duplicate-free (what iter_safe_relabels guarantees), not derived from relabel_ok here",
-           "refinement is equality of the energy function / of all coefficients (peq); the ORDER of variables inside an expression "
-           "and the presence of explicit zero interactions are compared exactly by the correspondence check (index-level replay) "
-           "but are not part of the theorem-level refinement relation",
-           "the add_constraint weight/penalty table and the exception classes of CQMSpec are hand written (the translator "
-           "cqm_rules.py covers vartype limits, change_vartype / flip constants and the discrete-marker rules)"]
+PARTIAL = ["variable order and the ordered interaction list are theorem-level at index level for every history "
+           "(C05_cqm_refines_spec_exact); for the labelled model they are stated through the index-level history of resolved "
+           "operations it always is (C05_cqm_refines_spec_labels_exact), not against a native order list over labels; the order of "
+           "the LINEAR terms inside a specification polynomial (a bag) has no counterpart - the variable order list replaces it",
+           "the label layer takes Variables as the list of labels; the duplicate-free guarantee of _relabel is now derived from "
+           "C13's model (C05_relabel_keeps_labels_distinct, mapping keys distinct as in a Python dict); the other Variables "
+           "operations (append, remove) are used in their list form, which C13 proves for the sparse dicts",
+           "cqm_rules.py generates vartype limits, change_vartype / flip constants, the discrete-marker rules, the exception "
+           "classes and the weight / penalty table; the bounds checks of set_lower_bound / set_upper_bound and the term-arity "
+           "check of the term iterables are still hand written in CQMSpec.v"]
